@@ -1757,9 +1757,12 @@ impl<const M0: u64, const M1: u64, const M2: u64, const M3: u64> ModInt256<M0, M
         let d = z0.norm_nonmonty_signed();
 
         // If d is in the [-2^128..+2^128] range, then we can return it
-        // as is (most common case).
-        if (d[2] == 0 && d[3] == 0)
-            || (d[2] == 0xFFFFFFFFFFFFFFFF && d[3] == 0xFFFFFFFFFFFFFFFF)
+        // as is (most common case). This does not apply if the truncated
+        // u1 is zero: the true u1 is then +/-2^128 (it cannot be zero for
+        // a non-zero source element), and d = 0 is not a candidate.
+        let u1z = (u1[0] | u1[1]) == 0;
+        if !u1z && ((d[2] == 0 && d[3] == 0)
+            || (d[2] == 0xFFFFFFFFFFFFFFFF && d[3] == 0xFFFFFFFFFFFFFFFF))
         {
             let c0 = ((d[0] as u128) | ((d[1] as u128) << 64)) as i128;
             return (c0, c1);
@@ -1773,7 +1776,7 @@ impl<const M0: u64, const M1: u64, const M2: u64, const M3: u64> ModInt256<M0, M
         let da = Self::signed_abs(&d);
         let ea = Self::signed_abs(&e);
         let fa = Self::signed_abs(&f);
-        let c0 = if Self::unsigned_lt(&da, &ea) {
+        let c0 = if !u1z && Self::unsigned_lt(&da, &ea) {
             if Self::unsigned_lt(&da, &fa) {
                 ((d[0] as u128) | ((d[1] as u128) << 64)) as i128
             } else {
